@@ -1081,8 +1081,13 @@ class UnknownNode:
         attr_node = attr_nodes[0]
 
         if typ != _Any:
-            recognized_types, result = self.__recognizer.recognize(
-                attr_node, cast(Type, typ))
+            try:
+                recognized_types, result = self.__recognizer.recognize(
+                    attr_node, cast(Type, typ))
+            except SeasoningError as e:
+                # raised by Node.get_attribute() for duplicate keys
+                raise RecognitionError('{}\n{}'.format(
+                    attr_node.start_mark, str(e)))
             if len(recognized_types) == 0:
                 raise RecognitionError(format_rec_error(result))
 
